@@ -552,7 +552,8 @@ impl<R: RefCounter, PR: PathRefCounter, H: Header> Memory<R, PR, H> {
       }
 
       if let Some(cap) = opts.capacity {
-        mopts.len((size - offset).min(cap as u64) as usize);
+        // a file shorter than the offset is refused below
+        mopts.len(size.saturating_sub(offset).min(cap as u64) as usize);
       }
       mopts
     };
